@@ -47,6 +47,9 @@ pub assume_specification[ HeaderMap::<HeaderValue>::new ]() -> (r: HeaderMap<Hea
     ensures hm_view(&r) == Seq::<(Seq<u8>, HeaderValue)>::empty();
 pub assume_specification<T>[ HeaderMap::<T>::len ](h: &HeaderMap<T>) -> (r: usize)
     ensures r == hm_view(h).len();
+/// number of distinct names: never more than the number of field lines, 0 only for the empty map (assumed; `http` crate)
+pub assume_specification<T>[ HeaderMap::<T>::keys_len ](h: &HeaderMap<T>) -> (r: usize)
+    ensures r <= hm_view(h).len(), (r == 0) == (hm_view(h).len() == 0);
 pub uninterp spec fn key_view<K>(k: K) -> Seq<u8>;
 /// HeaderName::from_bytes accepts exactly the RFC 9110 tokens and lower-cases them (assumed; `http` crate)
 pub uninterp spec fn hn_ok(b: Seq<u8>) -> bool;
